@@ -1225,6 +1225,15 @@ class XPathEval(Comp):
                 else:
                     e = g.expr(depth)
                 L.append(case_line(y, x, d, rng.choice(ctxs), e, render(e, abbrev=rng.random() < 0.7), off))
+            # the inputs of the fast/generic pair oracle through the model: what the library answers by a key lookup
+            # against the reference evaluation and, where the values allow the lookup, the Coq lookup (XPathLookup)
+            if k % 3 == 0:
+                for kind, fast, slow in XPathFastPair().pairs(rng, nodes)[:14]:
+                    for text in (fast, slow):
+                        try:
+                            L.append(case_line(y, x, d, -1, parse(text), text, off))
+                        except Exception:
+                            pass
         return L
 
     def norm(self, line, out):
@@ -1369,57 +1378,63 @@ class XPathFastPair:
         for (y, x), d in zip(pairs, dumps):
             if d.startswith("LOADERR") or d.startswith("CRASH"):
                 continue
-            nodes = parse_dump(d)
-            for n in nodes:
-                if n.kind != "l" or not n.keys or rng.random() < 0.3:
-                    continue
-                path = "/" + "/".join("%s:%s" % (a.mod, a.name) for a in self.chain(n))
-                kv = [(k, next(c for c in n.children if c.name == k)) for k in n.keys]
-                # string right-hand sides: the value itself
-                fast = path + "".join("[%s:%s=%s]" % (c.mod, k, r_lit(c.val)) for k, c in kv)
-                slow = path + "".join("[string(%s:%s)=concat(%s,'')]" % (c.mod, k, r_lit(c.val)) for k, c in kv)
-                if all(b"'" not in c.val or b'"' not in c.val for _, c in kv):
-                    L.append("xp2\t%s\t%s\t%s\t%s\t%s" % (y, x, "str", hexs(fast), hexs(slow)))
-                # numeric right-hand side where the key value reads as a number
-                k, c = kv[-1]
-                try:
-                    num = float(c.val.decode())
-                    lit = ("%d" % num) if num == int(num) and abs(num) < 1e9 else None
-                except ValueError:
-                    lit = None
-                if lit is not None and not lit.startswith("-"):
-                    pre = "".join("[%s:%s=%s]" % (cc.mod, kk, r_lit(cc.val)) for kk, cc in kv[:-1])
-                    fast = path + pre + "[%s:%s=%s]" % (c.mod, k, lit)
-                    slow = path + pre + "[%s:%s=%s or false()]" % (c.mod, k, lit)
-                    kind = "num-int" if c.ty.startswith("i") else "num-str"
-                    L.append("xp2\t%s\t%s\t%s\t%s\t%s" % (y, x, kind, hexs(fast), hexs(slow)))
-                if len(kv) == 1 and rng.random() < 0.3:
-                    fast = path + "[%s:%s=true()]" % (c.mod, k)
-                    slow = path + "[%s:%s=true() or false()]" % (c.mod, k)
-                    L.append("xp2\t%s\t%s\t%s\t%s\t%s" % (y, x, "bool", hexs(fast), hexs(slow)))
-                # node-set right-hand sides: absolute paths (also selecting nothing or several nodes), paths relative to
-                # the list instance (children, also under a choice; the parent) - "or false()" forces generic evaluation
-                if len(kv) == 1:
-                    vals = ["/a:c/a:zz", "/a:c/a:s", "/a:c/a:ll", "/a:top/a:id", "../a:s", "../a:sel", "../a:ll", "a:ca", "a:cb", "a:ca | a:cb",
-                            "a:v", "a:w", "a:in/a:x", "current()/a:tl", "string(a:ca)", "//a:sel", "../a:gsel", "../a:id", "parent::*/a:gsel", "../a:gsel | ../a:id"]
-                    leaves = [m for m in nodes if m.kind in "ft" and all(a.kind == "c" for a in self.chain(m)[:-1])]
-                    if leaves:
-                        m = rng.choice(leaves)
-                        vals.append("/" + "/".join("%s:%s" % (a.mod, a.name) for a in self.chain(m)))
-                    sib = [m for m in n.children if m.kind in "ft" and m.name != k]
-                    if sib:
-                        m = rng.choice(sib)
-                        vals.append("%s:%s" % (m.mod, m.name))
-                    pick = rng.sample(vals, 3)
-                    if n.parent is not None:
-                        # leaves next to the list: their value differs per instance of the parent
-                        up = [m for m in n.parent.children if m.kind == "f"]
-                        pick += ["../%s:%s" % (m.mod, m.name) for m in rng.sample(up, min(2, len(up)))]
-                    for v in pick:
-                        fast = path + "[%s:%s=%s]" % (c.mod, k, v)
-                        slow = path + "[%s:%s=%s or false()]" % (c.mod, k, v)
-                        L.append("xp2\t%s\t%s\t%s\t%s\t%s" % (y, x, "node", hexs(fast), hexs(slow)))
+            for kind, fast, slow in self.pairs(rng, parse_dump(d)):
+                L.append("xp2\t%s\t%s\t%s\t%s\t%s" % (y, x, kind, hexs(fast), hexs(slow)))
         return L
+
+    def pairs(self, rng, nodes):
+        """(kind, expression answered by the lookup, the same expression forced to generic evaluation) for the lists of a tree"""
+        out = []
+        for n in nodes:
+            if n.kind != "l" or not n.keys or rng.random() < 0.3:
+                continue
+            path = "/" + "/".join("%s:%s" % (a.mod, a.name) for a in self.chain(n))
+            kv = [(k, next(c for c in n.children if c.name == k)) for k in n.keys]
+            # string right-hand sides: the value itself
+            fast = path + "".join("[%s:%s=%s]" % (c.mod, k, r_lit(c.val)) for k, c in kv)
+            slow = path + "".join("[string(%s:%s)=concat(%s,'')]" % (c.mod, k, r_lit(c.val)) for k, c in kv)
+            if all(b"'" not in c.val or b'"' not in c.val for _, c in kv):
+                out.append(("str", fast, slow))
+            # numeric right-hand side where the key value reads as a number
+            k, c = kv[-1]
+            try:
+                num = float(c.val.decode())
+                lit = ("%d" % num) if num == int(num) and abs(num) < 1e9 else None
+            except ValueError:
+                lit = None
+            if lit is not None and not lit.startswith("-"):
+                pre = "".join("[%s:%s=%s]" % (cc.mod, kk, r_lit(cc.val)) for kk, cc in kv[:-1])
+                fast = path + pre + "[%s:%s=%s]" % (c.mod, k, lit)
+                slow = path + pre + "[%s:%s=%s or false()]" % (c.mod, k, lit)
+                kind = "num-int" if c.ty.startswith("i") else "num-str"
+                out.append((kind, fast, slow))
+            if len(kv) == 1 and rng.random() < 0.3:
+                fast = path + "[%s:%s=true()]" % (c.mod, k)
+                slow = path + "[%s:%s=true() or false()]" % (c.mod, k)
+                out.append(("bool", fast, slow))
+            # node-set right-hand sides: absolute paths (also selecting nothing or several nodes), paths relative to
+            # the list instance (children, also under a choice; the parent) - "or false()" forces generic evaluation
+            if len(kv) == 1:
+                vals = ["/a:c/a:zz", "/a:c/a:s", "/a:c/a:ll", "/a:top/a:id", "../a:s", "../a:sel", "../a:ll", "a:ca", "a:cb", "a:ca | a:cb",
+                        "a:v", "a:w", "a:in/a:x", "current()/a:tl", "string(a:ca)", "//a:sel", "../a:gsel", "../a:id", "parent::*/a:gsel", "../a:gsel | ../a:id"]
+                leaves = [m for m in nodes if m.kind in "ft" and all(a.kind == "c" for a in self.chain(m)[:-1])]
+                if leaves:
+                    m = rng.choice(leaves)
+                    vals.append("/" + "/".join("%s:%s" % (a.mod, a.name) for a in self.chain(m)))
+                sib = [m for m in n.children if m.kind in "ft" and m.name != k]
+                if sib:
+                    m = rng.choice(sib)
+                    vals.append("%s:%s" % (m.mod, m.name))
+                pick = rng.sample(vals, 3)
+                if n.parent is not None:
+                    # leaves next to the list: their value differs per instance of the parent
+                    up = [m for m in n.parent.children if m.kind == "f"]
+                    pick += ["../%s:%s" % (m.mod, m.name) for m in rng.sample(up, min(2, len(up)))]
+                for v in pick:
+                    fast = path + "[%s:%s=%s]" % (c.mod, k, v)
+                    slow = path + "[%s:%s=%s or false()]" % (c.mod, k, v)
+                    out.append(("node", fast, slow))
+        return out
 
     @staticmethod
     def chain(n):
